@@ -300,20 +300,18 @@ theorem prefixLoop_total (keys : List (List Nat)) (parts : List (List Nat)) (pos
 
 theorem finishName_total (l : Lx) (st : NameSt) : finishName l st ≠ .fuelOut := by
   unfold finishName
+  simp only
   split
-  · split <;> (intro h; cases h)
-  · simp only
-    split
-    · split
-      · intro h; cases h
-      · split <;> (intro h; cases h)
-    · split
-      · intro h; cases h
-      · intro h; cases h
-      · rename_i hh; exact absurd hh (prefixLoop_total _ _ _ _)
-      · intro h; cases h
-      · repeat' split
-        all_goals (intro h; cases h)
+  · split
+    · intro h; cases h
+    · split <;> (intro h; cases h)
+  · split
+    · intro h; cases h
+    · intro h; cases h
+    · rename_i hh; exact absurd hh (prefixLoop_total _ _ _ _)
+    · intro h; cases h
+    · repeat' split
+      all_goals (intro h; cases h)
 
 theorem consumeName_total (l : Lx) : consumeName l ≠ .fuelOut := by
   unfold consumeName
@@ -322,6 +320,14 @@ theorem consumeName_total (l : Lx) : consumeName l ≠ .fuelOut := by
   · intro h; cases h
   · rename_i hh; exact absurd hh (collectParts_total _ _)
   · exact finishName_total _ _
+
+theorem nameArm_total (l : Lx) : nameArm l ≠ .fuelOut := by
+  unfold nameArm
+  split
+  · intro h; cases h
+  · intro h; cases h
+  · intro h; cases h
+  · rename_i hh; exact absurd hh (consumeName_total _)
 
 theorem readNextToken_total (l : Lx) : readNextToken l ≠ .fuelOut := by
   simp only [readNextToken, advance]
@@ -335,7 +341,7 @@ theorem readNextToken_total (l : Lx) : readNextToken l ≠ .fuelOut := by
   repeat (refine ite_ne_out (fun h => by cases h) ?_)
   refine ite_ne_out ?_ ?_
   · exact ite_ne_out (fun h => by cases h) (fun h => by cases h)
-  refine ite_ne_out (consumeName_total _) ?_
+  refine ite_ne_out (nameArm_total _) ?_
   exact ite_ne_out (fun h => by cases h) (fun h => by cases h)
 
 theorem nextToken_total (l : Lx) : nextToken l ≠ .fuelOut := by
